@@ -308,6 +308,9 @@ func (g *vGateWorld) probe(c map[string]interface{}, idx int) map[string]interfa
 			q.Headers["Referer"] = "https://" + vHost + ".evil.example.net/page"
 		case "userinfo":
 			q.Headers["Origin"] = "https://" + vHost + "@evil.example.net"
+		case "opaque_null":
+			// a page in a sandboxed frame or a data: URL with referrerpolicy=no-referrer: an origin that is no site at all
+			q.Headers["Origin"] = "null"
 		}
 	}
 	g.applyGateCred(&q, cred)
@@ -374,7 +377,7 @@ func (g *vGateWorld) probe(c map[string]interface{}, idx int) map[string]interfa
 }
 
 // the ways a request can come from another site (C06: all of them must be refused state changes)
-var vCrossVariants = []string{"foreign", "lookalike_suffix", "lookalike_prefix", "lookalike_dash", "referer_only", "referer_lookalike", "userinfo"}
+var vCrossVariants = []string{"foreign", "lookalike_suffix", "lookalike_prefix", "lookalike_dash", "referer_only", "referer_lookalike", "userinfo", "opaque_null"}
 
 func vGateSeed() int {
 	n, _ := strconv.Atoi(os.Getenv("VERIF_SEED"))
